@@ -5,12 +5,10 @@ namespace SciVerif.C17
 
 /-! ### abstraction -/
 
-def absNode (n : Node) (v : Val) : SNode :=
-  ⟨splitDot n.name, n.kw, n.dims, n.unitsRaw, v, n.constant, n.condition, n.format, n.tags,
+/-- the abstract node of a model node -/
+def absN (n : Node) : SNode :=
+  ⟨splitDot n.name, n.kw, n.dims, n.unitsRaw, n.value, n.constant, n.condition, n.format, n.tags,
    n.options, n.description⟩
-
-/-- the abstract node of a model node that has a value (guarded by `Good`) -/
-def absN (n : Node) : SNode := absNode n (n.value.getD (.arr []))
 
 /-- invariant on every stored node: typed, holds a value conforming to its type and dimension,
     no pending slice, a unit of the table (none on str/bool), integers dimensionless -/
@@ -76,9 +74,9 @@ theorem processNode_append (tbl : UnitTable) (env : Env) (n : Node) (r v' : Val)
 /-! ### scaling keeps floats conforming -/
 
 mutual
-theorem scale_conf_float (f : Rat) : ∀ v : Val, castElem .float v = some v →
-    castElem .float (scaleVal f v) = some (scaleVal f v) ∧ shape (scaleVal f v) = shape v
-  | .num q, _ => by simp [scaleVal, castElem, castScalar, shape]
+theorem scale_conf_float (a b : Rat) : ∀ v : Val, castElem .float v = some v →
+    castElem .float (affVal a b v) = some (affVal a b v) ∧ shape (affVal a b v) = shape v
+  | .num q, _ => by simp [affVal, castElem, castScalar, shape]
   | .bool b, h => by simp [castElem, castScalar] at h
   | .str s, h => by simp [castElem, castScalar, dtypeOf] at h
   | .arr l, h => by
@@ -88,33 +86,33 @@ theorem scale_conf_float (f : Rat) : ∀ v : Val, castElem .float v = some v →
     | some l' =>
       simp only [hl, Option.map_some, Option.some.injEq, Val.arr.injEq] at h
       have hl2 : castList .float l = some l := by rw [hl, h]
-      obtain ⟨h1, h2, h3⟩ := scale_conf_floatL f l hl2
-      simp [scaleVal, castElem, h1, shape, h2, h3]
-theorem scale_conf_floatL (f : Rat) : ∀ l : List Val, castList .float l = some l →
-    castList .float (scaleList f l) = some (scaleList f l) ∧ (scaleList f l).length = l.length ∧
-    shapeHead (scaleList f l) = shapeHead l
-  | [], _ => by simp [scaleList, castList, shapeHead]
+      obtain ⟨h1, h2, h3⟩ := scale_conf_floatL a b l hl2
+      simp [affVal, castElem, h1, shape, h2, h3]
+theorem scale_conf_floatL (a b : Rat) : ∀ l : List Val, castList .float l = some l →
+    castList .float (affList a b l) = some (affList a b l) ∧ (affList a b l).length = l.length ∧
+    shapeHead (affList a b l) = shapeHead l
+  | [], _ => by simp [affList, castList, shapeHead]
   | x :: t, h => by
     simp only [castList] at h
     cases hx : castElem .float x with
     | none => simp [hx] at h
-    | some a =>
+    | some a' =>
       cases ht : castList .float t with
       | none => simp [hx, ht] at h
-      | some b =>
+      | some b' =>
         simp only [hx, ht, Option.some.injEq, List.cons.injEq] at h
         obtain ⟨rfl, rfl⟩ := h
-        obtain ⟨a1, a2⟩ := scale_conf_float f a hx
-        obtain ⟨b1, b2, _⟩ := scale_conf_floatL f b ht
-        simp [scaleList, castList, a1, b1, b2, shapeHead, a2]
+        obtain ⟨a1, a2⟩ := scale_conf_float a b a' hx
+        obtain ⟨b1, b2, _⟩ := scale_conf_floatL a b b' ht
+        simp [affList, castList, a1, b1, b2, shapeHead, a2]
 end
 
-theorem conforms_float_scale (dims : List Dim) (f : Rat) (v : Val)
-    (h : conforms .float dims v = some v) : conforms .float dims (scaleVal f v) = some (scaleVal f v) := by
+theorem conforms_float_scale (dims : List Dim) (a b : Rat) (v : Val)
+    (h : conforms .float dims v = some v) : conforms .float dims (affVal a b v) = some (affVal a b v) := by
   rw [conforms_eq] at h ⊢
   by_cases hd : dims.isEmpty = true
   · simp only [hd, if_true] at h ⊢
-    cases v <;> simp_all [castScalar, scaleVal]
+    cases v <;> simp_all [castScalar, affVal]
   · simp only [hd, Bool.false_eq_true, if_false] at h ⊢
     cases hc : castElem .float v with
     | none => simp [hc] at h
@@ -123,7 +121,7 @@ theorem conforms_float_scale (dims : List Dim) (f : Rat) (v : Val)
       by_cases hcd : checkDims dims (shape w) = true
       · simp only [hcd, if_true, Option.some.injEq] at h
         subst h
-        obtain ⟨h1, h2⟩ := scale_conf_float f w hc
+        obtain ⟨h1, h2⟩ := scale_conf_float a b w hc
         simp [h1, Option.bind, h2, hcd]
       · simp [hcd] at h
 
@@ -151,7 +149,7 @@ theorem convertVal_conf (tbl : UnitTable) (k : Kw) (dims : List Dim) (v w : Val)
             | some b =>
               simp only [h1, h2] at hc
               split at hc
-              · cases hc; exact conforms_float_scale dims _ v hv
+              · cases hc; exact conforms_float_scale dims _ _ v hv
               · cases hc
         · cases hk
 
@@ -163,14 +161,18 @@ theorem good_float_or_unitless {tbl : UnitTable} {n : Node} (hg : Good tbl n) (h
   cases hkw : n.kw <;> rw [hkw] at hn hint <;> simp_all [isNumKw]
 
 theorem modifyValue_abs (tbl : UnitTable) (t m : Node) (r : Val) (s' : SNode)
-    (hg : Good tbl t) (hm : m.kw = .mod) (hr : m.raw = some r) (hnc : t.constant = false)
+    (hg : Good tbl t) (hm : m.kw = .mod ∨ dtypeOf m.kw = dtypeOf t.kw) (hr : m.raw = some r)
+    (hnc : t.constant = false)
     (h : specModF tbl r m.unitsRaw (absN t) = some s') :
     ∃ t', modifyValue tbl t m = .ok t' ∧ absN t' = s' ∧ Good tbl t' ∧ t'.name = t.name := by
   obtain ⟨hk, ⟨v0, hv0, hcv0⟩, hsl, hun, hint⟩ := hg
   unfold specModF at h
-  simp only [absN, absNode, hnc, Bool.false_eq_true, if_false] at h
+  simp only [absN, hnc, Bool.false_eq_true, if_false] at h
   unfold modifyValue
-  simp only [hm, ne_eq, not_true_eq_false, false_and, if_false, hr]
+  have hchk : ¬ (m.kw ≠ .mod ∧ dtypeOf m.kw ≠ dtypeOf t.kw) := by
+    rcases hm with e | e <;> simp [e]
+  rw [if_neg hchk]
+  simp only [hr]
   rw [castValue_eq_conforms t r hsl hk]
   cases hc : conforms t.kw t.dims r with
   | none => simp [hc] at h
@@ -187,34 +189,41 @@ theorem modifyValue_abs (tbl : UnitTable) (t m : Node) (r : Val) (s' : SNode)
         | some w =>
           simp only [hcv, Option.map_some, Option.some.injEq] at h
           subst h
-          refine ⟨_, rfl, by simp [absN, absNode, hnc], ?_, rfl⟩
+          refine ⟨_, rfl, by simp [absN, hnc], ?_, rfl⟩
           refine ⟨hk, ⟨w, rfl, ?_⟩, rfl, hun, hint⟩
           exact convertVal_conf tbl t.kw t.dims v' w m.unitsRaw t.unitsRaw
             (good_float_or_unitless ⟨hk, ⟨v0, hv0, hcv0⟩, hsl, hun, hint⟩ hn) hidem hcv
-    · simp only [hn, Bool.false_eq_true, if_false, Option.some.injEq] at h ⊢
-      subst h
-      exact ⟨_, rfl, by simp [absN, absNode, hnc], ⟨hk, ⟨v', rfl, hidem⟩, rfl, hun, hint⟩, rfl⟩
+    · simp only [hn, Bool.false_eq_true, if_false] at h ⊢
+      by_cases hmu : m.unitsRaw.isSome = true
+      · simp [hmu] at h
+      · simp only [hmu, Bool.false_eq_true, if_false, Option.some.injEq] at h ⊢
+        subst h
+        exact ⟨_, rfl, by simp [absN, hnc], ⟨hk, ⟨v', rfl, hidem⟩, rfl, hun, hint⟩, rfl⟩
 
 theorem modifyFirst_abs (tbl : UnitTable) (m : Node) (r : Val) (ns : List Node) (ss' : List SNode)
-    (hg : ∀ n ∈ ns, Good tbl n) (hm : m.kw = .mod) (hr : m.raw = some r)
-    (h : sUpdate (splitDot m.name) (specModF tbl r m.unitsRaw) (ns.map absN) = some ss') :
+    (F : SNode → Option SNode)
+    (hF : ∀ t ∈ ns, ∀ s', F (absN t) = some s' →
+      specModF tbl r m.unitsRaw (absN t) = some s' ∧ (m.kw = .mod ∨ dtypeOf m.kw = dtypeOf t.kw))
+    (hg : ∀ n ∈ ns, Good tbl n) (hr : m.raw = some r)
+    (h : sUpdate (splitDot m.name) F (ns.map absN) = some ss') :
     ∃ ns', modifyFirst tbl m ns = .ok (some ns') ∧ ns'.map absN = ss' ∧ (∀ n ∈ ns', Good tbl n) := by
   induction ns generalizing ss' with
   | nil => simp [sUpdate] at h
   | cons t rest ih =>
     simp only [List.map_cons, sUpdate] at h
     by_cases hname : t.name = m.name
-    · have hp : (absN t).path = splitDot m.name := by simp [absN, absNode, hname]
+    · have hp : (absN t).path = splitDot m.name := by simp [absN, hname]
       simp only [hp, if_true] at h
-      cases hf : specModF tbl r m.unitsRaw (absN t) with
-      | none => simp [hf] at h
+      cases hf0 : F (absN t) with
+      | none => simp [hf0] at h
       | some s' =>
-        simp only [hf, Option.map_some, Option.some.injEq] at h
+        simp only [hf0, Option.map_some, Option.some.injEq] at h
         subst h
+        obtain ⟨hf, hm⟩ := hF t (by simp) s' hf0
         have hnc : t.constant = false := by
           cases hc : t.constant with
           | false => rfl
-          | true => simp [specModF, absN, absNode, hc] at hf
+          | true => simp [specModF, absN, hc] at hf
         obtain ⟨t', ht', habs, hgood, _⟩ := modifyValue_abs tbl t m r s' (hg t (by simp)) hm hr hnc hf
         refine ⟨t' :: rest, by simp [modifyFirst, hname, hnc, ht'], by simp [habs], ?_⟩
         intro n hn
@@ -223,15 +232,15 @@ theorem modifyFirst_abs (tbl : UnitTable) (m : Node) (r : Val) (ns : List Node) 
         · exact hgood
         · exact hg n (by simp [hn])
     · have hp : (absN t).path ≠ splitDot m.name := by
-        simp only [absN, absNode]
+        simp only [absN]
         intro e; exact hname (splitDot_inj e)
       simp only [hp, if_false] at h
-      cases hrec : sUpdate (splitDot m.name) (specModF tbl r m.unitsRaw) (rest.map absN) with
+      cases hrec : sUpdate (splitDot m.name) F (rest.map absN) with
       | none => simp [hrec] at h
       | some rs =>
         simp only [hrec, Option.map_some, Option.some.injEq] at h
         subst h
-        obtain ⟨ns', h1, h2, h3⟩ := ih rs (fun n hn => hg n (by simp [hn])) hrec
+        obtain ⟨ns', h1, h2, h3⟩ := ih rs (fun t ht => hF t (by simp [ht])) (fun n hn => hg n (by simp [hn])) hrec
         refine ⟨t :: ns', by simp [modifyFirst, hname, h1], by simp [h2], ?_⟩
         intro n hn
         simp only [List.mem_cons] at hn
